@@ -16,7 +16,7 @@
    published_or_genesis;  status_entry;  status_not_revoked (C09's acceptance condition). *)
 From Coq Require Import ZArith List String Bool.
 From GSP Require Import Base.Prelude SMT.Model SMT.Theory SMT.Sound Verify.Status Verify.Issuer
-  Verify.BJJ Verify.Top78 Verify.Theory78 Verify.Complete78.
+  Verify.BJJ Verify.Top78 Verify.Theory78 Verify.Complete78 Verify.Examples78.
 Import ListNotations.
 Open Scope Z_scope.
 
@@ -231,3 +231,40 @@ Theorem C07_verify_proof_list :
     exists b, vp_typed i = Some b /\ check b = Ok tt.
 Proof. exact top_list_ok_iff. Qed.
 Print Assumptions C07_verify_proof_list.
+
+(* The status entry only.  issuerData.credentialStatus is the JSON object o (jv: null / string /
+   integer literal / object / anything else); decode_cs is coerceCredentialStatus's decoding into
+   CredentialStatus (json_rt = the float64 round trip of numbers).  Two objects that both decode and
+   agree on `type` and `revocationNonce` get the same verdict from validateAuthClaimRevocation:
+   id, statusIssuer and unknown members never decide. *)
+Theorem C07_status_entry_only :
+  forall (poseidon : list Z -> Z) (q : Z) (reg : registry) (json_rt : Z -> option Z)
+         (f f' : nat) (o o' : list (string * jv)) (cs cs' : cred_status) (auth : option claim),
+  jget "type" o = jget "type" o' -> jget "revocationNonce" o = jget "revocationNonce" o' ->
+  decode_cs f json_rt o = Some cs -> decode_cs f' json_rt o' = Some cs' ->
+  validate_auth_revocation poseidon q reg (status_of_json f json_rt o) auth =
+  validate_auth_revocation poseidon q reg (status_of_json f' json_rt o') auth.
+Proof. exact status_entry_only. Qed.
+Print Assumptions C07_status_entry_only.
+
+(* A nested statusIssuer entry is never a fallback: adding a decodable one changes nothing. *)
+Theorem C07_status_issuer_never_a_fallback :
+  forall (poseidon : list Z -> Z) (q : Z) (reg : registry) (json_rt : Z -> option Z)
+         (f : nat) (o si : list (string * jv)) (auth : option claim),
+  jget "statusIssuer" o = None -> decode_cs f json_rt si <> None ->
+  validate_auth_revocation poseidon q reg
+    (status_of_json (S f) json_rt (("statusIssuer"%string, JObj si) :: o)) auth =
+  validate_auth_revocation poseidon q reg (status_of_json (S f) json_rt o) auth.
+Proof. exact status_issuer_never_a_fallback. Qed.
+Print Assumptions C07_status_issuer_never_a_fallback.
+
+(* REFUTED variant (seeded change C07-q): a verifier that falls back to the nested entry when the
+   entry itself cannot be validated accepts a bundle whose status clause fails. *)
+Theorem C07_status_issuer_fallback_refuted :
+  exists (poseidon : list Z -> Z) (q : Z) (reg : registry) (primary nested : cred_status) (auth : claim),
+    validate_auth_revocation_with_fallback poseidon q reg primary (Some nested) auth = Ok tt /\
+    cs_nonce nested <> claim_nonce auth /\
+    ~ status_not_revoked poseidon q reg primary /\
+    exists t, validate_auth_revocation poseidon q reg (RSObj (Some primary)) (Some auth) = Err t.
+Proof. exact status_issuer_fallback_refuted. Qed.
+Print Assumptions C07_status_issuer_fallback_refuted.
